@@ -163,7 +163,7 @@ def run(ctx: Ctx):
     ijobs = []
     for kind, level in (("key", "inner"), ("key", "outer"), ("unique", "outer")):
         consts = {"NF": 1, "KeyKind": f'"{kind}"', "Level": f'"{level}"', "MaxRows": 3, "MaxScopes": 2,
-                  "RowKinds": '{"k", "f", "i", "p"}'}
+                  "RowKinds": '{"k", "f", "i", "p"}', "IdVer": '"1.0"'}
         ri = ctx.tlc("Identity", "Identity.cfg", constants=consts, tag=f"ident-{kind}-{level}", workers=4)
         irecs = [x for x in ri.json_records() if c08.canonical(x)]
         if not thorough:
